@@ -396,7 +396,13 @@ pub fn gen_srv_case(rng: &mut Rng, profile: Profile, prop: &'static str) -> SrvC
                     _ => rng.below(sim.outstanding.len()),
                 };
                 let tag = sim.outstanding[k].0.clone();
-                let pad = if big_responses && rng.chance(1, 3) { rng.range(200, 3 * case.cap_s2c.min(70_000)) } else { rng.below(80) };
+                let pad = if rng.chance(1, 12) {
+                    crate::engc::AIM_PAD + rng.below(4)
+                } else if big_responses && rng.chance(1, 3) {
+                    rng.range(200, 3 * case.cap_s2c.min(70_000))
+                } else {
+                    rng.below(80)
+                };
                 SStep::Respond { tag, code: *rng.pick(&[200u16, 200, 200, 404, 400, 500, 204, 100]), pad }
             }
             5 => SStep::RespondAll { code: 200, pad: rng.below(60) },
@@ -586,7 +592,8 @@ fn shrink_srv(case: &SrvCase) -> Vec<SrvCase> {
         match s {
             SStep::Respond { tag, code, pad } if *pad > 0 || *code != 200 => {
                 let mut c = case.clone();
-                c.steps[i] = SStep::Respond { tag: tag.clone(), code: 200, pad: pad / 2 };
+                // an aimed pad (resolved at execution) is first replaced by a plain small one
+                c.steps[i] = SStep::Respond { tag: tag.clone(), code: 200, pad: if *pad >= crate::engc::AIM_PAD { 3 } else { pad / 2 } };
                 out.push(c);
             }
             SStep::Poll { key, eintr } if *key != 0 || *eintr => {
